@@ -598,6 +598,21 @@ func c10seq(c *engine.Ctx, only string) {
 		{"slice-field-shrinks", []string{`(def a (vall strs:["a" "b" "c"]))`, `(togo a)`, `(hset a strs: ["z"])`, `(togo a)`}, []string{`Strs:[]string{"z"}`}},
 		{"pointer-field-cleared", []string{`(def a (vall p:(vinner s:"a" n:1)))`, `(togo a)`, `(hset a p: nil)`, `(togo a)`}, []string{`P:(*props.VInner)(nil)`}},
 	}...)
+	seqs = append(seqs, []struct {
+		name   string
+		script []string
+		want   []string
+	}{
+		// a conversion that fails leaves no Go object attached: a later method call fails the same way, and after the
+		// record is repaired the conversion is made afresh
+		{"failed-togo-then-method", []string{`(def a (vall str:"k" ints:["x"]))`, `(togo a)`, `(_method a EchoSelf:)`}, []string{`ERR`}},
+		{"failed-togo-then-sum", []string{`(def a (vall str:"k" ints:["x"]))`, `(togo a)`, `(_method a SumInts:)`}, []string{`ERR`}},
+		{"failed-togo-twice", []string{`(def a (vall str:"k" ints:["x"]))`, `(togo a)`, `(togo a)`}, []string{`ERR`}},
+		{"failed-togo-then-repaired", []string{`(def a (vall str:"k" ints:["x"]))`, `(togo a)`, `(hset a ints: [1 2])`, `(togo a)`}, []string{`Ints:[]int{1, 2}`, `Str:"k"`}},
+		{"failed-togo-then-repaired-sum", []string{`(def a (vall str:"k" ints:["x"]))`, `(togo a)`, `(hset a ints: [1 2])`, `(_method a SumInts:)`}, []string{`3`}},
+		{"failed-method-then-repaired-sum", []string{`(def a (vall str:"k" ints:["x"]))`, `(_method a SumInts:)`, `(hset a ints: [1 2])`, `(_method a SumInts:)`}, []string{`3`}},
+		{"failed-inner-then-method", []string{`(def in (vinner s:"a" n:"notanumber"))`, `(togo in)`, `(def a (vall str:"x"))`, `(_method a EchoInner: in)`}, []string{`ERR`}},
+	}...)
 	for _, sq := range seqs {
 		w := "SEQ|" + sq.name
 		if !(only == "" && c.Mine() || only == w) {
@@ -618,6 +633,12 @@ func c10seq(c *engine.Ctx, only string) {
 			}
 		}
 		for _, sub := range sq.want {
+			if sub == "ERR" { // the last step must be refused
+				if last.OK() {
+					c.Violation("failed-conversion-used", "C10/failed-conversion-used/"+sq.name, w, fmt.Sprintf("after %q the last step succeeded with %s although the record does not convert", sq.script, clipS(got, 300)))
+				}
+				break
+			}
 			if strings.HasPrefix(sub, "!") { // must NOT occur
 				if strings.Contains(got, sub[1:]) {
 					c.Violation("stale-conversion", "C10/stale-conversion/"+sq.name, w, fmt.Sprintf("after %q the Go side still holds %s: %s", sq.script, sub[1:], clipS(got, 300)))
@@ -640,7 +661,7 @@ func init() {
 		ID:    "C10",
 		Level: "exploration",
 		Rule: "harness-registered Go struct types with one field of every supported kind (string, int, int64, float64, bool, []string, []int, []byte, map[string]string|float64|interface, time.Time, embedded struct, *struct, struct value, interface holding a registered struct, slice of such interfaces, slices of struct values and of struct pointers, map of interfaces, three levels of embedding, untagged field): " +
-			"for 2-4 values per kind, combinations, and 4 sharing patterns the Go value is fixed first and the record text derived from it; SexpToGoStructs and (togo r) must give reflect.DeepEqual values with one object per shared record; (_method a EchoSelf:) must return an equal record; 11 records with an undeclared field or a wrong-kind value must be reported as errors; 9 sequences in which a record changes (hset) after it has already been converted once and is then passed to Go again",
+			"for 2-4 values per kind, combinations, and 4 sharing patterns the Go value is fixed first and the record text derived from it; SexpToGoStructs and (togo r) must give reflect.DeepEqual values with one object per shared record; (_method a EchoSelf:) must return an equal record; 11 records with an undeclared field or a wrong-kind value must be reported as errors; 16 sequences in which a record changes (hset) after it has already been converted once (or after its conversion failed) and is then passed to Go again",
 		Assumptions: []string{"types are registered by the harness through the public registry API, like the demo structs"},
 		Run: func(c *engine.Ctx) {
 			for _, k := range c10cases(c.Thorough()) {
